@@ -140,7 +140,7 @@ class _RuleLoop(LoopContract):
     def enter(self, ctx):
         g = ctx.ghost
         g["apply_val_entry"] = g["E"].fields["_value"]
-        sender = ctx.env.vars.get("sender")
+        sender = ctx.role("the element being written (2nd parameter)", lambda n: n.args.args[1].arg, "sender")
         if not (isinstance(sender, RObj) and sender.region is g["E"]):
             raise OutOfReach("apply_rule: `sender` is not an element of this vector")
         g["apply_sender_idx"] = sender.idx
